@@ -126,12 +126,13 @@ SeqPointCb(int id, const void *obj)
       break;
     }
     case kMcsNodeTaken:
-      EverInsert(obj);
+      NodeStateTaken(obj);
 #if VERIF_ASAN
       ASAN_UNPOISON_MEMORY_REGION(obj, 8);
 #endif
       break;
     case kMcsNodeRecycle:
+      NodeStateRecycled(obj);
 #if VERIF_ASAN
       ASAN_POISON_MEMORY_REGION(obj, 8);
 #endif
@@ -737,19 +738,20 @@ class Controller
           break;
         }
         const int k = m.lock;
+        const char *vprop = (c.op == kCgVerify) ? "C13" : "C03";
         if (ml_[k].HeldSince(issued, false, false, true) > 0) {
-          Fail("C03", "VerifyVersion-returned-while-exclusive-grant-held",
+          Fail(vprop, "VerifyVersion-returned-while-exclusive-grant-held",
                Fmt("'%s' returned although an X grant on lock %d was held from before the call was issued until after it returned", what.c_str(), k));
         }
         const auto vs = ver_set(k);
         const auto now_ver = (c.op == kVerify) ? r.ogver[c.b] : r.cgver[c.b];
         if (!In(vs, now_ver)) {
-          Fail("C03", "check-left-a-version-that-was-never-current",
+          Fail(vprop, "check-left-a-version-that-was-never-current",
                Fmt("'%s': guard carries %u afterwards, version(s) current during the call %s", what.c_str(), now_ver, VStr(vs).c_str()));
         }
         const bool expect = (now_ver == m.ver);
         if (r.ok != expect) {
-          Fail("C03", r.ok ? "VerifyVersion-succeeded-although-version-changed" : "VerifyVersion-failed-although-version-unchanged",
+          Fail(vprop, r.ok ? "VerifyVersion-succeeded-although-version-changed" : "VerifyVersion-failed-although-version-unchanged",
                Fmt("'%s' returned %d; guard carried %u, lock version observed by the call %u", what.c_str(), static_cast<int>(r.ok), m.ver, now_ver));
         }
         sigs_.insert(Fmt("%s:%s:%s:%s", T::kName, kOpKNames[c.op], r.ok ? "ok" : "failed", sync ? "immediate" : "completed-later"));
@@ -867,7 +869,8 @@ class Controller
         auto &l = ml_[k];
         if (s_cnt != static_cast<uint64_t>(l.nS) || six != (l.nSIX > 0) || x != (l.nX > 0)) {
           const bool conv = c.op == kUpgrade || c.op == kDowngrade;
-          Fail(conv ? "C10" : "C07", Fmt("lock-word-disagrees-with-guard-ownership-after-%s", kOpKNames[c.op]),
+          const bool composite = c.op == kPrepare || ((c.op == kReset || c.op == kDtor || c.op == kMoveCtor || c.op == kMoveAssign) && c.a == kKCG);
+          Fail(conv ? "C10" : (composite ? "C13" : "C07"), Fmt("lock-word-disagrees-with-guard-ownership-after-%s", kOpKNames[c.op]),
                Fmt("after '%s' (no operation in flight) the guards that convert to true own S:%d SIX:%d X:%d on lock %d, but the lock word "
                    "%016" PRIx64 " encodes S:%" PRIu64 " SIX:%d X:%d",
                    what.c_str(), l.nS, l.nSIX, l.nX, k, word, s_cnt, static_cast<int>(six), static_cast<int>(x)));
@@ -1373,6 +1376,7 @@ class Controller
     res_.Add("wall_ms", (NowNs() - t0) / 1000000);
     for (auto &s : sigs_) res_.signatures.push_back(s);
     res_.strings["cls"] = T::kName;
+    if constexpr (T::kMcs) ReportNodeStateViolations();
     if (stopped) {
       // a violation (or hang) was reported; threads may be stuck inside the library
       EmitResult(res_, g_log.n_viol.load() ? "violation" : "stopped");
